@@ -194,8 +194,10 @@ partial def sources (a : Alias) (isMap : String → Option Bool) : Node → List
   | .builtin "REST" [x] => if mapSide isMap x then [] else sources a isMap x
   | .inf "PLUS" l r =>
     let mapSide := mapSide isMap
-    -- map + map builds a new map; with an ARRAY on the left the right operand (whatever it is) becomes an element
-    if mapSide l then [] else sources a isMap l ++ sources a isMap r
+    -- map + map builds a new map (fresh pairs): an operand that is an IDENTIFIER contributes nothing, but what a map
+    -- LITERAL operand holds is contained in the result (`a + {"x": a}` keeps a pointer to `a`'s storage);
+    -- with an ARRAY on the left the right operand (whatever it is) becomes an element
+    if mapSide l then held l ++ held r else sources a isMap l ++ sources a isMap r
   | .inf _ _ _ => []
   | .pre _ _ | .post _ _ | .int _ | .float _ | .str _ | .bool _ | .none | .ctl _ | .comment | .macroLit .. => []
   | .fn .. => []
@@ -213,6 +215,11 @@ partial def sources (a : Alias) (isMap : String → Option Bool) : Node → List
   | .stmts l => l.flatMap (sources a isMap)
   | .ret v => sources a isMap v
   | other => identsIn other
+where
+  /-- what a map literal holds (keys and values) -/
+  held : Node → List String
+    | .mapLit ks vs => ks.flatMap (sources a isMap) ++ vs.flatMap (sources a isMap)
+    | _ => []
 
 /-- effects of evaluating a node on the alias groups (statements in order; loop bodies twice; callee
 bodies inlined up to `depth` calls) -/
